@@ -10,6 +10,9 @@ from spacepackets.cfdp.defs import (Direction, TransmissionMode, CrcFlag, LargeF
                                     DeliveryCode, FileStatus)
 from spacepackets.cfdp.tlv import EntityIdTlv
 from spacepackets.cfdp.pdu.finished import FinishedPdu, FinishedParams
+from spacepackets.cfdp.pdu.ack import AckPdu, TransactionStatus
+from spacepackets.cfdp.pdu.prompt import PromptPdu, ResponseRequired
+from spacepackets.cfdp.pdu.file_directive import DirectiveType
 from spacepackets.uslp.header import PrimaryHeader, SourceOrDestField, BypassSequenceControlFlag, ProtocolCommandFlag
 from spacepackets.uslp.frame import (TransferFrame, TransferFrameDataField, TfdzConstructionRules, UslpProtocolIdentifier, FrameType,
                                      FixedFrameProperties)
@@ -17,6 +20,39 @@ from spacepackets.uslp.frame import (TransferFrame, TransferFrameDataField, Tfdz
 FIN = "spacepackets.cfdp.pdu.finished:"
 F = "spacepackets.uslp.frame:"
 NO_SEG = SegmentationControl.NO_RECORD_BOUNDARIES_PRESERVATION
+
+
+# ------------------------------------------------------------------------------------------------ inherited file-flag setter
+@obligation(["C11", "C06"], "file_flag(inherited setter)/directives-without-file-size-field",
+            verifies=["spacepackets.cfdp.pdu.file_directive:AbstractFileDirectiveBase.file_flag", "spacepackets.cfdp.pdu.header:PduHeader.file_flag"])
+def inherited_file_flag_setter(kind: Choice("ack", "prompt", "finished"), mode: EnumOf(TransmissionMode), crc: EnumOf(CrcFlag),
+                               large0: EnumOf(LargeFileFlag), large1: EnumOf(LargeFileFlag), we: Choice(1, 4), ws: Choice(1, 2),
+                               src: Int, seq: Int, dst: Int, cc: EnumOf(ConditionCode)):
+    """ACK, Prompt and Finished have no file-size-sensitive field: changing the large-file flag through the setter they inherit
+    changes one header bit and nothing else - lengths and octets are those of a PDU built with the final flag.
+    (EOF and Metadata inherit the same setter although they carry such a field; for them the setter leaves the length field
+    stale in the unchanged library.  It is not among the documented setters the property lists, so this is recorded in DESIGN.md
+    as an observation and neither claimed nor repaired.)"""
+    requires(ids_in_range(we, ws, src, seq, dst))
+    requires(cc >= 0)
+
+    def build(large):
+        conf = mk_conf(we, ws, src, seq, dst, mode, crc, large, Direction.TOWARDS_SENDER, NO_SEG)
+        if kind == "ack":
+            return AckPdu(conf, DirectiveType.EOF_PDU, cc, TransactionStatus.ACTIVE)
+        if kind == "prompt":
+            return PromptPdu(conf, ResponseRequired.KEEP_ALIVE)
+        return FinishedPdu(conf, FinishedParams(cc, DeliveryCode.DATA_COMPLETE, FileStatus.FILE_RETAINED, [], None))
+    pdu = build(large0)
+    pdu.pack()
+    pdu.file_flag = large1
+    fresh = build(large1)
+    raw = pdu.pack()
+    ensures("octets-as-fresh", raw == fresh.pack())
+    ensures("lengths-as-fresh", both(pdu.packet_len == len(raw), pdu.packet_len == fresh.packet_len,
+                                     pdu.pdu_header.pdu_data_field_len == fresh.pdu_header.pdu_data_field_len,
+                                     from_be(raw[1:3]) == len(raw) - (4 + 2 * we + ws)))
+    ensures("flag-view", both(pdu.file_flag == large1, pdu == fresh))
 
 
 # ------------------------------------------------------------------------------------------------ Finished
